@@ -205,3 +205,17 @@ def absurd_payload(rng, proto: str, n: int) -> tuple[str, str]:
     t = rng.choice(kinds)
     node = 0 if t == 2 else n
     return f"{node};255;3;0;{t};{rng.choice(ABSURD[t])}\n", f"absurd-type{t}"
+
+
+def maybe_tcp(rng, scn: dict, share: float = 0.2) -> dict:
+    """Run the scenario over the full stack (real TCPTransport + asyncio streams on the simulated byte link)
+    instead of the injected line-level transport, when it injects no line-level write/read faults."""
+    tapes = scn.get("tapes") or {}
+    if any(k.startswith("w.fail") and any(tapes[k]) for k in tapes):
+        return scn
+    if any(op and op[0] == "readerr" for op in scn.get("ops", [])):
+        return scn
+    if rng.random() < share:
+        scn.setdefault("cfg", {})["link"] = "tcp"
+        scn["tapes"] = dict(tapes, **{"link.chunk": [rng.choice([0, 0, 1, 3, 7]) for _ in range(rng.randint(0, 10))]})
+    return scn
